@@ -546,7 +546,7 @@ func (e *routeEngine) req(r reqSpec, o *Out) string {
 	if res.code == "ok" {
 		if stEp != want {
 			clause := "wrong-endpoint"
-			if has(opts, "X-Piko-Endpoint") {
+			if r.kind == "http" && has(opts, "X-Piko-Endpoint") {
 				clause = "endpoint-header-stripped"
 			}
 			o.Fail("C01", clause, detail+" addressed="+Hx(want))
@@ -678,6 +678,12 @@ func (e *routeEngine) Step(ws []string, o *Out) string {
 		return "ok " + B01(e.nodes[Atoi(ws[1])].cs.RemoveRemoteEndpoint(Unhx(ws[2]), Unhx(ws[3])))
 	case "vdel":
 		return "ok " + B01(e.nodes[Atoi(ws[1])].cs.RemoveNode(Unhx(ws[2])))
+	case "lep":
+		e.nodes[Atoi(ws[1])].cs.AddLocalEndpoint(Unhx(ws[2]))
+		return "ok"
+	case "rmlep":
+		e.nodes[Atoi(ws[1])].cs.RemoveLocalEndpoint(Unhx(ws[2]))
+		return "ok"
 	case "resync":
 		for _, k := range e.order {
 			e.nodes[k.node].mgr.RemoveConn(e.up(k))
@@ -814,6 +820,16 @@ func (e *routeEngine) Gen(r *rand.Rand, n int, tier string, w *bufio.Writer) {
 			}
 		}
 		settledCase := r.Intn(6) == 0
+		if r.Intn(8) == 0 {
+			// the local row of the routing table disagrees with the registry (cluster.State
+			// driven directly): LookupEndpoint must still never answer with the local node
+			for k := 0; k < 1+r.Intn(2); k++ {
+				fmt.Fprintf(w, "lep %d %s\n", r.Intn(N), Hx(Pick(r, eps)))
+			}
+			if r.Intn(3) == 0 {
+				fmt.Fprintf(w, "rmlep %d %s\n", r.Intn(N), Hx(Pick(r, eps)))
+			}
+		}
 		statuses := []string{"active", "active", "active", "active", "unreachable", "left", "unset"}
 		for i := 0; i < N; i++ {
 			for j := 0; j < N+1; j++ {
